@@ -54,7 +54,8 @@ AUTO_BASE = 1000000
 PAIR_BASE = 10000000
 MISSING_TOKS = ('nan', 'N', 'nat')
 
-DTYPES = ['int64', 'float64', 'bool', 'str', 'object', 'datetime64[D]']
+# two datetime units: members holding one column at different units (coarser first) must keep the finer cells exactly
+DTYPES = ['int64', 'float64', 'bool', 'str', 'object', 'datetime64[D]', 'datetime64[s]']
 POOLS = {
     'int': ['i:0', 'i:1', 'i:2', 'i:3', 'i:5', 'i:7', 'i:10', 'i:-4'],
     'str': ['s:"a"', 's:"b"', 's:"c"', 's:"d"', 's:"e"', 's:"zz"', 's:"ab"', 's:"B"'],
@@ -79,6 +80,10 @@ def rand_cell(rng, dt, na=0.2):
         if rng.random() < na:
             return 'nat'
         return tok(np.datetime64('2021-01-01', 'D') + np.timedelta64(rng.randint(0, 60), 'D'))
+    if dt == 'datetime64[s]':
+        if rng.random() < na:
+            return 'nat'
+        return tok(np.datetime64('2021-01-01T00:00:00', 's') + np.timedelta64(rng.randint(0, 60) * 86400 + rng.choice([0, 0, 1, 3600, 45296]), 's'))
     r = rng.random()
     if r < na / 2:
         return 'N'
@@ -96,9 +101,15 @@ def cell_key(v):
         return 'missing'
     if isinstance(v, (np.datetime64, np.timedelta64)) and np.isnat(v):
         return 'missing'
-    if isinstance(v, np.datetime64):
-        return 'd:' + str(v.astype('datetime64[D]')) if v == v.astype('datetime64[D]') else tok(v)
     import datetime
+    if isinstance(v, datetime.datetime) and v.tzinfo is None:
+        v = np.datetime64(v)        # what a second-resolution datetime64 becomes inside an object array
+    if isinstance(v, np.datetime64):
+        if v == v.astype('datetime64[D]'):
+            return 'd:' + str(v.astype('datetime64[D]'))
+        if v == v.astype('datetime64[s]'):
+            return 'dt:' + str(v.astype('datetime64[s]'))
+        return tok(v)
     if isinstance(v, datetime.date) and not isinstance(v, datetime.datetime):
         return 'd:' + v.isoformat()
     return hash_class(v)
@@ -713,7 +724,10 @@ def eval_vstack(ctx, c, outs):
     if outs:
         st, body = parse_answer(outs[0])
         mflags = (body[0] == '1', body[1] == '1')
+        # the model decides compatibility on the dtype kind, the code on the exact dtype: texts of different widths and
+        # datetimes of different units share a kind (every strategy is run below, and they are proved equal)
         has_str = any(col['dt'] in ('str',) for mm in c['members'] for col in mm['cols'])
+        has_str = has_str or len({col['dt'] for mm in c['members'] for col in mm['cols'] if col['dt'].startswith('datetime64')}) > 1
         if mflags != (bc, rc) and not has_str:
             fails.append(Failure('corr', f'vstack flags: model {mflags} real {(bc, rc)}', c))
     for i, (fb, fr) in enumerate(flag_sets):
